@@ -183,10 +183,14 @@ def _task(b):
         b.options += 1 + (e - s) // max(1, gran)
         return b.add({"type": "wchoose", "name": name, "parts": parts, "n": _amount(b, parts), "start": s, "dur": _dur(b), "end": e,
                       "gran": gran, "util": _util(b)})
-    # malleable
+    # malleable: its own step is the capacity grid or (aligned classes) a multiple of it
     parts = _parts(b)
     g = b.o["grid"]
-    s = _grid_time(b, 0, 3)
+    if b.o["aligned"] and b.o.get("mchoose_coarser_step") and rng.random() < 0.5:
+        g = g * 2
+        s = max(0, (b.spec["now"] // g) * g + g * rng.randint(0, 2))
+    else:
+        s = _grid_time(b, 0, 3)
     nsl = rng.randint(1, 3)
     e = s + g * nsl
     qs = sum(p["q"] for p in b.spec["partitions"] if p["id"] in parts)
@@ -345,6 +349,9 @@ def gen_spec(seed_parts, cls="plain"):
     if cls == "dynpass":
         kinds["mchoose"] = 0
     opts = {"grid": grid, "aligned": aligned, "kinds": kinds, "share": 0.3, "max_options": rng.choice([4, 6, 8])}
+    if cls in ("plain", "coarse"):
+        opts["mchoose_coarser_step"] = True
+        kinds["mchoose"] = 1.2
     if cls in ("passes", "dynpass"):
         # the passes reason about durations: give the alternatives of one task different run times more often, and
         # more tasks with alternatives
